@@ -183,7 +183,14 @@ func (self *Compiler) compileStmt(node ast.AnalyzedStatement) {
 	case ast.ExpressionStatementKind:
 		node := node.(ast.AnalyzedExpressionStatement)
 		self.compileExpr(node.Expression)
-		if node.Expression.Type().Kind() != ast.NullTypeKind {
+
+		// A `spawn` always leaves a value on the stack (even though it is just `null` until thread handles exist)
+		isSpawn := false
+		if node.Expression.Kind() == ast.CallExpressionKind {
+			isSpawn = node.Expression.(ast.AnalyzedCallExpression).IsSpawn
+		}
+
+		if node.Expression.Type().Kind() != ast.NullTypeKind || isSpawn {
 			// Drop every value that the expression might generate
 			self.insert(newPrimitiveInstruction(Opcode_Drop), node.Range)
 		}
